@@ -31,6 +31,7 @@ type c03Resp struct {
 
 type c03Query struct {
 	Listener string
+	LateFin  bool        // quic: the client sends its STREAM FIN only after reading the response
 	Batch    []*c03Query // stream listeners: the queries that shared this query's connection
 	Wire     []byte
 	ID       uint16
@@ -271,11 +272,20 @@ func c03Drive(b *Bed, listener string, qs []*c03Query, wait time.Duration) {
 			}
 			return
 		}
+		// every other query comes from a client that sends its STREAM FIN only after reading the response
+		c2, err2 := dnsclient.DialDoQ("", b.L["quic"], b.ProxyTLS)
+		if err2 == nil {
+			c2.LateFin = true
+			defer c2.Close()
+		}
 		var wg sync.WaitGroup
 		for _, q := range qs {
 			wg.Add(1)
-			go func(q *c03Query) {
+			go func(q *c03Query, c *dnsclient.DoQClient) {
 				defer wg.Done()
+				if c.LateFin {
+					q.Note += " (late STREAM FIN)"
+				}
 				r := c.Exchange(dnsclient.Frame(q.Wire), wait)
 				q.TSend = r.TSend
 				for _, f := range r.Frames {
@@ -287,7 +297,7 @@ func c03Drive(b *Bed, listener string, qs []*c03Query, wait time.Duration) {
 				if r.Err != nil {
 					q.Note += " stream: " + r.Err.Error()
 				}
-			}(q)
+			}(q, map[bool]*dnsclient.DoQClient{true: c2, false: c}[q.LateFin && err2 == nil])
 		}
 		wg.Wait()
 		c.Close()
@@ -380,6 +390,11 @@ func runC03(c *Ctx) {
 								qs = append(qs, c03Build(r, listener, up, "ok", sh, seq))
 							}
 						}
+					}
+				}
+				if listener == "quic" {
+					for qi, q := range qs {
+						q.LateFin = qi%2 == 1
 					}
 				}
 				phaseQs = append(phaseQs, qs...)
